@@ -122,23 +122,48 @@ func (g cgraph) build(perm []int, edgeOrder []int, errRot int) *resolve.Graph {
 	return rg
 }
 
+func typeTag(t dep.Type) string {
+	if t.IsRegular() {
+		return "r"
+	}
+	if t.Equal(devType) {
+		return "d"
+	}
+	return t.String()
+}
+
+var devType = dep.NewType(dep.Dev)
+
 func dumpGraph(rg *resolve.Graph) string {
-	var sb strings.Builder
-	for i, nd := range rg.Nodes {
-		fmt.Fprintf(&sb, "%d=%s@%s", i, nd.Version.Name, nd.Version.Version)
+	buf := make([]byte, 0, 16*len(rg.Nodes)+16*len(rg.Edges))
+	for _, nd := range rg.Nodes {
+		buf = append(buf, nd.Version.Name...)
+		buf = append(buf, '@')
+		buf = append(buf, nd.Version.Version...)
 		for _, e := range nd.Errors {
-			fmt.Fprintf(&sb, "!%s", e.Error)
+			buf = append(buf, '!')
+			buf = append(buf, e.Error...)
 		}
-		sb.WriteString(" ")
+		buf = append(buf, ' ')
 	}
-	sb.WriteString("| ")
+	buf = append(buf, '|')
 	for _, e := range rg.Edges {
-		fmt.Fprintf(&sb, "%d>%d:%s:%s ", e.From, e.To, e.Requirement, e.Type.String())
+		buf = strconv.AppendInt(buf, int64(e.From), 10)
+		buf = append(buf, '>')
+		buf = strconv.AppendInt(buf, int64(e.To), 10)
+		buf = append(buf, ':')
+		buf = append(buf, e.Requirement...)
+		buf = append(buf, ':')
+		buf = append(buf, typeTag(e.Type)...)
+		buf = append(buf, ' ')
 	}
-	return sb.String()
+	return string(buf)
 }
 
 func nodeSig(nd resolve.Node) string {
+	if len(nd.Errors) == 0 {
+		return nd.Version.Name + "@" + nd.Version.Version
+	}
 	es := make([]string, len(nd.Errors))
 	for i, e := range nd.Errors {
 		es[i] = e.Error
@@ -155,7 +180,7 @@ func multisets(rg *resolve.Graph) (string, string) {
 	}
 	es := make([]string, len(rg.Edges))
 	for i, e := range rg.Edges {
-		es[i] = ns[e.From] + ">" + ns[e.To] + ":" + e.Requirement + ":" + e.Type.String()
+		es[i] = ns[e.From] + ">" + ns[e.To] + ":" + e.Requirement + ":" + typeTag(e.Type)
 	}
 	sorted := append([]string(nil), ns...)
 	sort.Strings(sorted)
@@ -264,9 +289,11 @@ func c13Orbit(g cgraph) (fails []string, calls int) {
 // ---- enumeration of base graphs ----
 
 type c13Bounds struct {
-	nodes    int // total nodes incl. root
-	maxEdges int
-	maxDev   int // decorations
+	nodes     int // total nodes incl. root
+	maxEdges  int
+	maxDev    int  // decorations
+	connected bool // only graphs in which every node is reachable from the root
+	forward   bool // no self loops and no edges into the root
 }
 
 // c13Enumerate calls f for every base graph within the bounds. Structures are all
@@ -279,12 +306,33 @@ func c13Enumerate(b c13Bounds, f func(g cgraph)) {
 	var pairs [][2]int
 	for i := 0; i < n; i++ {
 		for j := 0; j < n; j++ {
+			if b.forward && (j == 0 || i == j) {
+				continue
+			}
 			pairs = append(pairs, [2]int{i, j})
 		}
 	}
 	var chosen []int
 	var recEdges func(start int)
 	emit := func() {
+		if b.connected {
+			reach := make([]bool, n)
+			reach[0] = true
+			for changed := true; changed; {
+				changed = false
+				for _, pi := range chosen {
+					if reach[pairs[pi][0]] && !reach[pairs[pi][1]] {
+						reach[pairs[pi][1]] = true
+						changed = true
+					}
+				}
+			}
+			for _, r := range reach {
+				if !r {
+					return
+				}
+			}
+		}
 		for lab := 0; lab < 1<<n; lab++ {
 			g := cgraph{labels: make([]string, n), errs: make([][]string, n)}
 			for i := 0; i < n; i++ {
@@ -321,12 +369,20 @@ func c13Decorate(g cgraph, left, fromSlot int, f func(g cgraph)) {
 		return
 	}
 	ne, nn := len(g.edges), len(g.labels)
-	// slots: for each original edge 3 slots (dev, req b, parallel-dev), for each node 2 slots (1 error, 2 errors)
-	total := ne*3 + nn*2
+	// slots: for each original edge 5 slots (dev, req b, parallel with other type, parallel with other req,
+	// parallel with both other), for each node 2 slots (1 error, 2 errors)
+	const es = 5
+	total := ne*es + nn*2
 	for s := fromSlot; s < total; s++ {
 		h := cgraph{labels: g.labels, errs: append([][]string(nil), g.errs...), edges: append([]cedge(nil), g.edges...)}
-		if s < ne*3 {
-			e, k := s/3, s%3
+		if s < ne*es {
+			e, k := s/es, s%es
+			other := func(r string) string {
+				if r == "a" {
+					return "b"
+				}
+				return "a"
+			}
 			switch k {
 			case 0:
 				h.edges[e].dev = true
@@ -336,9 +392,18 @@ func c13Decorate(g cgraph, left, fromSlot int, f func(g cgraph)) {
 				p := h.edges[e]
 				p.dev = !p.dev
 				h.edges = append(h.edges, p)
+			case 3:
+				p := h.edges[e]
+				p.req = other(p.req)
+				h.edges = append(h.edges, p)
+			case 4:
+				p := h.edges[e]
+				p.req = other(p.req)
+				p.dev = !p.dev
+				h.edges = append(h.edges, p)
 			}
 		} else {
-			nd, k := (s-ne*3)/2, (s-ne*3)%2
+			nd, k := (s-ne*es)/2, (s-ne*es)%2
 			if len(h.errs[nd]) > 0 {
 				continue
 			}
@@ -485,9 +550,9 @@ func C13(tier string) {
 		run.SetBudget(2400e9)
 	}
 	run.Cov["rule"] = "all rooted graphs within the node/edge/decoration bounds over the label alphabet {A,B} (root included), each presented under every renumbering of non-root nodes x edge orders (all permutations if <=4 edges, else as generated/reversed/rotated) x error rotations; oracle: one outcome per orbit (same canonical graph or failure for all), idempotence, root, node and edge multisets preserved; plus structured 13-16 node family (placements of <=3 duplicate nodes among distinct fillers) exercising sort.Sort's large-slice path. Non-trivial = graph has a duplicate version, a parallel edge, a self loop or a node error."
-	bounds := []c13Bounds{{2, 4, 2}, {3, 3, 2}, {4, 3, 0}}
+	bounds := []c13Bounds{{2, 3, 2, false, false}, {3, 3, 1, false, false}, {4, 3, 0, false, false}, {5, 5, 0, true, true}}
 	if !quick {
-		bounds = []c13Bounds{{2, 4, 3}, {3, 5, 2}, {4, 4, 2}, {5, 3, 1}}
+		bounds = []c13Bounds{{2, 4, 3, false, false}, {3, 5, 2, false, false}, {4, 4, 2, false, false}, {5, 3, 1, false, false}, {5, 6, 0, true, false}, {5, 5, 1, true, true}}
 	}
 	var graphs, calls, nontrivial int64
 	per := []any{}
@@ -528,7 +593,7 @@ func C13(tier string) {
 		}
 		graphs += g0
 		calls += c0
-		per = append(per, map[string]any{"nodes": b.nodes, "max_edges": b.maxEdges, "max_decorations": b.maxDev, "base_graphs": g0, "canon_calls": c0, "completed": !capped})
+		per = append(per, map[string]any{"connected_only": b.connected, "forward_edges_only": b.forward, "nodes": b.nodes, "max_edges": b.maxEdges, "max_decorations": b.maxDev, "base_graphs": g0, "canon_calls": c0, "completed": !capped})
 		if g0 > 0 {
 			run.Outcome(fmt.Sprintf("%+v:%d", b, g0))
 		}
